@@ -161,7 +161,7 @@ Fixpoint fpieces (fuel : nat) (cur : str) (s : str) : option (list piece) :=
 Definition fstring_pieces (content : str) : option (list piece) := fpieces (S (length content)) [] content.
 
 (* lowering.rs: std.concat of str_lit(text) and the hole expressions; here: the SQL text of each piece *)
-Definition emit_piece (p : piece) : str := match p with PText s => emit_string s | PHole h => h end.
+Definition emit_piece (p : piece) : str := match p with PText s => emit_literal_string s | PHole h => h end.
 
 (* ------------------------------------------------------------------ numbers *)
 Inductive numlit :=
@@ -409,7 +409,7 @@ Definition emit_literal (sqlite : bool) (l : lit) : option str :=
   | LInt n => Some (emit_int (Z.of_N n))
   | LFloat _ _ => None                       (* format!("{f:?}") of the rounded binary64: not modelled *)
   | LBool b => Some (emit_bool b)
-  | LString s | LRaw s => Some (emit_string s)
+  | LString s | LRaw s => Some (emit_literal_string s)
   | LFString _ => None                       (* an expression (concat), see fstring_pieces / emit_piece *)
   | LDate v => Some (emit_datetime sqlite s_DATE s_DATE v)
   | LTime v => Some (emit_datetime sqlite s_TIME s_TIME v)
